@@ -361,3 +361,87 @@ func VH_C18_GroupLookupFaults() {
 	vhCheckMap(m, addr, model, "after faulty lookup")
 	vhReach("group-faults-done")
 }
+
+// A failing LEDGER read during a lookup on a container opened cold over a
+// persistent storage (real codec): the lookup reports an external error, and
+// nothing is remembered about the failure -- the same lookup through the same
+// storage succeeds once the ledger answers again, with the right value, and
+// the container is intact. Array and map parents spanning several slabs, a
+// nested child by choice; the k-th ledger read fails.
+//
+//vh:prop C18 C08
+//vh:init cbor
+//vh:sched first
+func VH_C18_LedgerReadFaults() {
+	vhSetThreshold(256)
+	base := newVBase()
+	st := vhNewPersistentB(base)
+	addr := vhAddr(1)
+	isMap := vhChoose("kind", 2) == 1
+	const n = 6
+	var rootID SlabID
+	var arr *Array
+	var mp *OrderedMap
+	if isMap {
+		mp, _ = NewMap(st, addr, NewDefaultDigesterBuilder(), vTypeInfo{id: 42})
+		for i := 0; i < n; i++ {
+			_, _ = mp.Set(vhCompareBK, vhHipB, vBKey{val: uint64(i + 1)}, vBlob{n: 60 + i})
+		}
+		rootID = mp.SlabID()
+	} else {
+		arr, _ = NewArray(st, addr, vTypeInfo{id: 42})
+		for i := 0; i < n; i++ {
+			_ = arr.Append(vBlob{n: 60 + i})
+		}
+		rootID = arr.SlabID()
+	}
+	vhAssert(st.FastCommit(1) == nil, "commit")
+	// cold: a new storage over the same ledger, or the same storage with the cache dropped
+	if vhChoose("cold", 2) == 0 {
+		st.DropCache()
+	} else {
+		st = vhNewPersistentB(base)
+	}
+	var err error
+	if isMap {
+		mp, err = NewMapWithRootID(st, rootID, NewDefaultDigesterBuilder())
+	} else {
+		arr, err = NewArrayWithRootID(st, rootID)
+	}
+	vhAssert(err == nil, "open cold")
+	if err != nil {
+		return
+	}
+	i := vhChoose("idx", n)
+	lookup := func() (Value, error) {
+		if isMap {
+			return mp.Get(vhCompareBK, vhHipB, vBKey{val: uint64(i + 1)})
+		}
+		return arr.Get(uint64(i))
+	}
+	base.retrFail = base.nretr + 1 + vhChoose("failat", 2)
+	v, err := lookup()
+	reached := base.nretr >= base.retrFail
+	base.retrFail = 0
+	if reached {
+		vhAssert(err != nil, "failing ledger read surfaces")
+		vhAssert(vhIsExternal(err), "failing ledger read is an external error")
+	} else {
+		vhAssert(err == nil, "lookup without a failing read succeeds")
+	}
+	// the ledger answers again: same lookup, same storage
+	v, err = lookup()
+	vhAssert(err == nil, "lookup succeeds once the ledger answers again")
+	if err == nil {
+		bl, ok := v.(vBlob)
+		vhAssert(ok && bl.n == 60+i, "lookup returns the stored value")
+	}
+	if isMap {
+		vhAssert(VerifyMap(mp, addr, vTypeInfo{id: 42}, vhTic, vhHipB, true) == nil, "map intact after the failed read")
+		vhAssert(mp.Count() == n, "count intact")
+	} else {
+		vhAssert(VerifyArray(arr, addr, vTypeInfo{id: 42}, vhTic, vhHipB, true) == nil, "array intact after the failed read")
+		vhAssert(arr.Count() == n, "count intact")
+	}
+	vhReach("ledger-read-faults-done")
+}
